@@ -1,4 +1,5 @@
 import XrlParser.Core.Ascii
+import XrlParser.Core.Double
 /-!
 # Specification of C07, written from the property text (not from the C code)
 
@@ -143,6 +144,16 @@ def Formula.Known (E : Elements) : Formula → Prop
 /-- well-formed formula of the property: non-empty, shaped, known symbols, positive subscripts -/
 def Formula.WF (E : Elements) (f : Formula) : Prop := f ≠ .nil ∧ f.Shape ∧ f.Known E
 
+/-- the subscript is a number a `double` can hold as a finite positive value (Core/Double.lean): the counts of the
+    result are doubles, so "atom counts equal to the algebraic expansion" can only be demanded of such formulas;
+    a formula with a subscript outside this range has to be rejected (no composition can be returned for it). -/
+def Sub.Fits (s : Sub) : Prop := dblRoundsToZero s.value = false ∧ dblRoundsToInf s.value = false
+
+def Formula.Fits : Formula → Prop
+  | .nil => True
+  | .atom _ sub rest => sub.Fits ∧ rest.Fits
+  | .group inner sub rest => inner.Fits ∧ sub.Fits ∧ rest.Fits
+
 /-- the atomic numbers that occur in a formula -/
 def Formula.Occurs (E : Elements) : Formula → Nat → Prop
   | .nil, _ => False
@@ -285,6 +296,19 @@ def Formula.okB (E : Elements) : Formula → Bool
   | .atom sym sub rest => (E.zOf sym).isSome && sub.posB && rest.okB E
   | .group inner sub rest => (match inner with | .nil => false | _ => true) && inner.okB E && sub.posB && rest.okB E
 
+def Sub.fitsB (s : Sub) : Bool := !dblRoundsToZero s.value && !dblRoundsToInf s.value
+
+def Formula.fitsB : Formula → Bool
+  | .nil => true
+  | .atom _ sub rest => sub.fitsB && rest.fitsB
+  | .group inner sub rest => inner.fitsB && sub.fitsB && rest.fitsB
+
+/-- some subscript is too large for a `double` (for the label of the oracle's verdict) -/
+def Formula.hasOverflow : Formula → Bool
+  | .nil => false
+  | .atom _ sub rest => dblRoundsToInf sub.value || rest.hasOverflow
+  | .group inner sub rest => inner.hasOverflow || dblRoundsToInf sub.value || rest.hasOverflow
+
 def Formula.elems (E : Elements) : Formula → List Nat
   | .nil => []
   | .atom sym _ rest => (match E.zOf sym with | some z => [z] | none => []) ++ rest.elems E
@@ -294,10 +318,10 @@ def insertAsc (z : Nat) : List Nat → List Nat
   | [] => [z]
   | x :: xs => if z < x then z :: x :: xs else if z = x then x :: xs else x :: insertAsc z xs
 
-/-- the composition the property demands for a well-formed formula whose elements all have weights;
-    `none` when the formula must be rejected. -/
+/-- the composition the property demands for a well-formed formula whose subscripts a double can hold and whose
+    elements all have weights; `none` when the formula must be rejected. -/
 def expected (E : Elements) (f : Formula) : Option Composition :=
-  if f.okB E && (match f with | .nil => false | _ => true) then
+  if f.okB E && f.fitsB && (match f with | .nil => false | _ => true) then
     let els := (f.elems E).foldr insertAsc []
     if els.all (fun z => match E.weight z with | some w => decide (0 < w) | none => false) then
       let w := fun z => (E.weight z).getD 0
